@@ -9,6 +9,9 @@ import FordModel.Lemmas.ReaderLayout
 import FordModel.Lemmas.ReaderSplit
 import FordModel.InitialValue
 import FordModel.Lemmas.InitialValue
+import FordModel.Lemmas.ReaderLiteral
+import FordModel.Lemmas.MaskPass
+import FordModel.TypeSpec
 namespace Ford.C02
 open Ford
 
@@ -240,6 +243,86 @@ theorem regex_sources_pinned :
       ("ford.sourceform", "QUOTES_RE", "\\\"([^\\\"]|\\\"\\\")*\\\"|'([^']|'')*'", 34),
       ("ford.sourceform", "COMMA_RE", ",(?!\\s)", 32),
       ("ford.sourceform", "NBSP_RE", " (?= )|(?<= ) ", 32)] := rfl
+
+/-- **No character inside a closed literal moves the comment.**  After any comment-free,
+    quote-closed prefix `p` and one more closed literal `q body q` - `body` being *any* characters
+    other than `q`: `!`, `;`, `&`, the other quote, and in particular a backslash in last position,
+    which is an ordinary character in Fortran and does not escape the closing quote - the next `!`
+    starts the comment (or the doc comment with mark `mark` when the text after it starts with the
+    mark), and the code part of the line is everything in front of it. -/
+theorem comment_after_literal_any_contents (mark p cmt : Str) (q : Char) (body : Str) (hp : Atoms p)
+    (hq : isQuote q = true) (hb : q ∉ body) (hm : startsWith cmt mark = true) :
+    comScan mark (p ++ q :: body ++ [q] ++ '!' :: cmt) = some (p ++ q :: body ++ [q]).length ∧
+    codeOf false (p ++ q :: body ++ [q] ++ '!' :: cmt) = strip (p ++ q :: body ++ [q]) :=
+  ⟨(comScan_iff mark _ _).2 ⟨_, cmt, rfl, atoms_snoc_literal p q body hp hq hb, rfl, hm⟩,
+   codeOf_outside_comment _ cmt (atoms_snoc_literal p q body hp hq hb)⟩
+
+/-- non-vacuity: literals ending in a backslash, followed by a comment / an inline doc comment -/
+example : comScan [] (chars! "s = '\\' ! sep") = some 8 := by decide
+example : comScan ['!'] (chars! "r = \"C:\\\" !! root") = some 10 := by decide
+example :
+    (readAll Marks.default [chars! "s = '\\' ! sep", chars! "r = \"C:\\\" !! root"]).toOption =
+      some [chars! "s = '\\'", chars! "r = \"C:\\\"", chars! "!! root"] := by decide
+
+/-! ## the parser's second masking pass: cutting the literals out
+
+  `maskLoop` is regenerated from ford/sourceform.py on every run (translate/c02.py). -/
+
+open Ford.Show Ford.MaskPass in
+/-- **The masking pass cuts a statement exactly at its literals, whatever they contain.**  For
+    every statement made of code pieces (no quote characters) and well-formed character literals
+    (any contents; two literals never adjacent), the loop at the top of
+    `FortranContainer._initialize` records the literals in order in `self.strings` and leaves the
+    statement with the k-th placeholder `"k"` standing exactly where the k-th literal stood - also
+    when a literal's text is itself the spelling of a placeholder (`"0"`, `"1"`, ...), contains
+    quotes of the other kind, doubled quotes, `!`, `;`, `&` or keywords. -/
+theorem masking_pass_exact (ps : List SrcPiece) (hw : WellFormed ps) :
+    prepLine false (srcText ps) = ⟨srcMasked ps 0, srcLits ps⟩ := by
+  simp [prepLine, cutLits, cutGo_pieces ps 0 hw, segMasked_srcSegs, segStrings_srcSegs]
+
+open Ford.Show Ford.MaskPass Ford.InitialValue in
+/-- **Masking then re-inserting brings every literal back to its own place.**  Feeding what the
+    masking pass produced to the re-insertion loop of `line_to_variables` returns the statement
+    with the code pieces untouched and every literal whole where it stood (NBSP substitution only,
+    `nbsp_reads_as_blank`): no literal is exchanged with another, dropped or duplicated. -/
+theorem masked_literals_return_in_place (ps : List SrcPiece) (hw : WellFormed ps) :
+    reinsert true true (prepLine false (srcText ps)).strings (prepLine false (srcText ps)).masked =
+      .ok (srcShown ps) := by
+  rw [masking_pass_exact ps hw]
+  have h := reinsert_pieces (srcLits ps) (toPieces ps 0) (wellMasked_toPieces ps [] hw)
+  rw [maskedText_toPieces] at h
+  have e := restoredText_toPieces ps []
+  simp only [List.nil_append, List.length_nil] at e
+  rw [e] at h
+  exact h
+
+open Ford.Show in
+/-- non-vacuity / the look-alike case: in `v = ["x", "0"]` the second literal spells the first
+    placeholder; it is literal number 1 and stays at its place -/
+example :
+    prepLine false (chars! "v = [\"x\", \"0\"]") =
+      ⟨chars! "v = [\"0\", \"1\"]", [chars! "\"x\"", chars! "\"0\""]⟩ := by decide
+
+open Ford.Show Ford.MaskPass in
+/-- why the replacement has to be positional: once `"x"` has become the placeholder `"0"`,
+    replacing *the first occurrence of the text* of the next literal `"0"` rewrites that
+    placeholder instead of the literal (the two literals would come back exchanged) -/
+theorem first_occurrence_replacement_witness :
+    replaceFirst (chars! "\"0\"") (maskOf 1) (chars! "v = [\"0\", \"0\"]") = chars! "v = [\"1\", \"0\"]" ∧
+    (prepLine false (chars! "v = [\"x\", \"0\"]")).masked = chars! "v = [\"0\", \"1\"]" := by
+  decide
+
+/-- The masking loop whose deterministic reading `Show.cutGo` is (`search_from` = the scan
+    position, `QUOTES_RE.search` = `litEnd`, the re-search after substitution = `verbExtra`) is the
+    one in the source: an edit of the loop changes this obligation. -/
+theorem mask_loop_pinned :
+    Generated.C02.maskLoop = [
+      "self.strings = []",
+      "search_from = 0",
+      "while (quote := QUOTES_RE.search(line[search_from:])):",
+      "    self.strings.append(quote.group())",
+      "    line = line[0:search_from] + QUOTES_RE.sub(f'\"{len(self.strings) - 1}\"', line[search_from:], count=1)",
+      "    search_from += QUOTES_RE.search(line[search_from:]).end(0)"] := rfl
 
 /-- Historical witness of the defect repaired by the `fix:` commit 389e6bb: the old
     previous-character test called the closed literal `''` unterminated; the
